@@ -912,3 +912,52 @@ package leveldb
 //@   loop 1
 //@     invariant forall j int :: 0 <= j && j < rangeidx ==> !ovl(tf[j], umin, umax)
 //@   ensures [C01,C06:no-overlap-means-none] !result ==> (forall i int :: 0 <= i && i < len(tf) ==> !ovl(tf[i], umin, umax))
+
+// ---------------------------------------------------------------------------
+// C02: a forward step of the DB iterator surfaces the newest visible version of the next user key and nothing
+// that is deleted or overwritten. Ghost history of the scan: the user key of the last entry that was visible at
+// the iterator's sequence number (seq <= i.seq); at the start of a step that is the key the iterator stands on.
+//@ ghost var gItHas bool
+//@ ghost var gItU key
+//@ ghost var gItPrevHas bool
+//@ ghost var gItPrevU key
+//@ func (*dbIter).next
+//@   props C02
+//@   abstract keys
+//@   safety off
+//@   at entry
+//@     ghost gItHas = (i.dir != dirSOI)
+//@     ghost gItU = krank(i.key)
+//@   at before stmt i.sampleSeek()
+//@     ghost gItPrevHas = gItHas
+//@     ghost gItPrevU = gItU
+//@     ghost gItHas = (gItHas || seq <= i.seq)
+//@     ghost gItU = (seq <= i.seq ? krank(ukey) : gItU)
+//@   loop 1
+//@     invariant [C02:barrier-covers-the-last-visible-key] (gItHas ==> (i.dir != dirSOI && gItU <= krank(i.key))) && (i.dir != dirSOI ==> gItHas)
+//@   at before stmt return true
+//@     assert [C02:newest-visible-version-of-a-new-key] seq <= i.seq && kt == keyTypeVal && (!gItPrevHas || gItPrevU != krank(ukey))
+
+// A backward step: entries arrive with user keys descending and, within a user key, oldest first; the candidate the
+// step returns is the last visible entry recorded for its user key (hence the newest visible version), it is a
+// value (a newer deletion marker clears the candidate), and the step returns only once an entry of another user
+// key is reached or the source is exhausted.
+//@ ghost var gPvHas bool
+//@ ghost var gPvIsVal bool
+//@ ghost var gPvU key
+//@ func (*dbIter).prev
+//@   props C02
+//@   abstract keys
+//@   safety off
+//@   at entry
+//@     ghost gPvHas = false
+//@   loop 1
+//@     invariant [C02:candidate-is-the-last-visible-entry] (!del ==> (gPvHas && gPvIsVal && gPvU == krank(i.key))) && (del ==> (!gPvHas || !gPvIsVal))
+//@   at before stmt del = (kt == keyTypeDel)
+//@     ghost gPvHas = true
+//@     ghost gPvIsVal = (kt != keyTypeDel)
+//@     ghost gPvU = krank(ukey)
+//@   at before stmt return true#1
+//@     assert [C02:newest-visible-version-complete] gPvHas && gPvIsVal && gPvU == krank(i.key) && krank(ukey) != krank(i.key) && seq <= i.seq
+//@   at before stmt return true#2
+//@     assert [C02:newest-visible-version-at-the-start] gPvHas && gPvIsVal && gPvU == krank(i.key)
